@@ -19,6 +19,10 @@ var addrStringFields = map[string][]string{
 	"Bid": {"Bidder"}, "AllowedBidder": {"Bidder"}, "Auction": {"Auctioneer"}, "VestingQueue": {"Auctioneer"},
 }
 
+// isCanonicalAddrString: every alternative of the written string is either canonical (AccAddress.String of a parsed
+// address), carried over from a stored record, or of a provenance the terms cannot resolve to an input (a local list
+// of records being written back); an alternative that is, or is a field of, a parameter of the operation is the
+// caller's raw string.
 func isCanonicalAddrString(t *Term) bool {
 	n := 0
 	for _, a := range t.Alts() {
@@ -27,6 +31,8 @@ func isCanonicalAddrString(t *Term) bool {
 			n++
 		case a.Op == "field" && (fromColl(a, "Bid") || fromColl(a, "Auction") || fromColl(a, "AllowedBidder") || fromColl(a, "VestingQueue")):
 			n++ // carried over from a stored record
+		case !a.Any(func(x *Term) bool { return x.Op == "param" }):
+			n++ // not an input of the operation
 		default:
 			return false
 		}
